@@ -484,6 +484,19 @@ func c11Check(c C11Case, rec *evid.Rec) error {
 				}
 				tgt.nb.Reset()
 				v2 := op.V
+				if tgt.regen != nil && op.B%3 == 0 {
+					// first an attempt the typed builder refuses — a value of its type with an entry it does not know, or
+					// a scalar of another kind — then Reset again: a refused build leaves no trace on finished nodes either
+					bad := tgt.regen(op.B, op.A)
+					if bad.K == val.Map {
+						bad.Ents = append(append([]val.Ent{}, bad.Ents...), val.Ent{K: "zz-unknown", V: val.MkBool(true)})
+					} else {
+						bad = val.MkFloat(1.5)
+					}
+					quietly(func() { _ = nodes.Assemble(tgt.nb, bad, nodes.NewProg(op.Prog), 0) })
+					tgt.nb.Reset()
+					rec.Class("refused-build-before-reuse")
+				}
 				if tgt.regen != nil {
 					v2 = tgt.regen(op.A, op.B)
 				} else if nodes.Impl(op.Impl) != nodes.BasicAny || true {
